@@ -289,26 +289,38 @@ var addrRe = regexp.MustCompile(`0x[0-9a-f]+`)
 func shortStack(s string) string {
 	lines := strings.Split(s, "\n")
 	var out []string
-	for _, l := range lines {
-		if strings.Contains(l, "privacybydesign/gabi") || strings.HasPrefix(l, "panic") {
-			out = append(out, strings.TrimSpace(addrRe.ReplaceAllString(l, "")))
+	for i := 0; i < len(lines); i++ {
+		l := lines[i]
+		if strings.HasPrefix(l, "panic") {
+			out = append(out, strings.TrimSpace(l))
+			continue
 		}
-		if len(out) >= 12 {
+		if strings.Contains(l, "github.com/privacybydesign/gabi") && i+1 < len(lines) {
+			fn := strings.TrimSpace(addrRe.ReplaceAllString(l, ""))
+			if k := strings.Index(fn, "("); k > 0 {
+				fn = fn[:k]
+			}
+			file := strings.TrimSpace(lines[i+1])
+			if k := strings.Index(file, " +0x"); k > 0 {
+				file = file[:k]
+			}
+			out = append(out, fn+" @ "+file)
+			i++
+		}
+		if len(out) >= 10 {
 			break
 		}
 	}
 	return strings.Join(out, " | ")
 }
 
-// PanicSite extracts the innermost gabi frame "file:line" from a short stack.
+var siteRe = regexp.MustCompile(`@ .*?/([A-Za-z0-9_]+/)?([A-Za-z0-9_]+\.go):(\d+)`)
+
+// PanicSite extracts the innermost gabi frame "pkgdir/file.go:line" from a short stack.
 func PanicSite(stack string) string {
-	re := regexp.MustCompile(`(/repo|gabi[^/ ]*)/([A-Za-z0-9_/]+\.go):(\d+)`)
 	for _, part := range strings.Split(stack, " | ") {
-		if strings.Contains(part, "harness/") {
-			continue
-		}
-		if m := re.FindStringSubmatch(part); m != nil {
-			return m[2] + ":" + m[3]
+		if m := siteRe.FindStringSubmatch(part); m != nil {
+			return m[1] + m[2] + ":" + m[3]
 		}
 	}
 	return "unknown"
